@@ -47,12 +47,11 @@ def scratch_root():
 class StanzaDispatcher(YowConnectionDispatcher):
     """Dispatcher double carrying stanza trees instead of bytes; asyncore callback discipline
     (onConnected from inside connect(), disconnect() calls onDisconnected synchronously)."""
-    account = None     # set per construction through the class attribute `current`
-    current = None
+    by_net = {}        # id(network layer instance) -> Account
 
     def __init__(self, callbacks):
         YowConnectionDispatcher.__init__(self, callbacks)
-        self.account = StanzaDispatcher.current
+        self.account = StanzaDispatcher.by_net[id(callbacks)]
         self._connected = False
 
     def connect(self, host):
@@ -131,7 +130,6 @@ class Account(object):
 
     def build(self):
         """(Re)start the process: a fresh stack on the same profile directory."""
-        StanzaDispatcher.current = self
         NetL.AsyncoreConnectionDispatcher = StanzaDispatcher
         NetL.SocketConnectionDispatcher = StanzaDispatcher
         cfg = Config(phone=self.phone, cc=self.phone[:2], pushname="n-" + self.phone)
@@ -143,6 +141,7 @@ class Account(object):
         self.stack = YowStack(layers, reversed=False, props=props)
         self.stack.setProp(YowNetworkLayer.PROP_ENDPOINT, ("e1.whatsapp.net", 443))
         self.net = self.stack.getLayer(0)
+        StanzaDispatcher.by_net[id(self.net)] = self
         self.control = self.stack.getLayer(1)
         self.enc = self.stack.getLayer(2)
         self.send_layer, self.recv_layer = self.enc.sublayers
